@@ -180,6 +180,16 @@ theorem sinusoidSpec_numbers {β : Type} (sin : K → β) (f p : K) (n : Nat) :
   simp only [Nat.cast_zero, Int.cast_zero, zero_mul] at this
   simp [sinusoidSpec, Arg.expand, this, List.range_eq_range', Function.comp_def]
 
+theorem tableSpec_numbers (tbl : List K) (den f p : K) (n : Nat) :
+    tableSpec tbl den (.num f) (.num p) n
+      = (List.range n).map fun (k : Nat) =>
+          interpCyc tbl (((tbl.length : Int) : K) / den * p + (((k : Nat) : ℤ) : K) * (((tbl.length : Int) : K) / den * f)) := by
+  have := runSumFrom_numbers (((tbl.length : Int) : K) / den * p) (((tbl.length : Int) : K) / den * f) n 0
+  simp only [Nat.cast_zero, Int.cast_zero, zero_mul] at this
+  simp only [tableSpec, Arg.expand, Arg.map, this, List.map_map, List.range_eq_range']
+  rfl
+
+
 /-! ### karplus_strong: the shift register of the generated filter loop = full-history recursion -/
 
 theorem getD_take (l : List K) (lm i : Nat) (h : i < lm) : (l.take lm).getD i 0 = l.getD i 0 := by
